@@ -291,12 +291,30 @@ class Reader:
             raise IOError("Reader not open; call `open` before `read`")
         if hasattr(self, 'raw_channel_order'):
             csel = self.raw_channel_order[csel]
-        darray = self._raw[nsel, :].astype(np.float32, copy=True)[..., csel]
+        fsel, flip = self._forward_selector(nsel)
+        darray = self._raw[fsel, :].astype(np.float32, copy=True)[..., csel]
+        if flip:
+            darray = darray[::-1]
         darray *= self.channel_conversion_sample2v[self.type][csel]
         if sync:
             return darray, self.read_sync(nsel)
         else:
             return darray
+
+    def _forward_selector(self, nsel):
+        """
+        mtscomp only reads forward (a decreasing slice comes back empty): on a compressed file a
+        decreasing sample slice is read in increasing order and flipped by the caller, so that it
+        returns what the same slice returns on the uncompressed file
+        :param nsel: sample selector (int or slice)
+        :return: selector to apply to the raw data, True if the result has to be reversed in time
+        """
+        if self.is_mtscomp and isinstance(nsel, slice) and nsel.step is not None and nsel.step < 0:
+            idx = range(*nsel.indices(self._raw.shape[0]))
+            if len(idx) == 0:
+                return slice(0, 0), False
+            return slice(idx[-1], idx[0] + 1, -nsel.step), True
+        return nsel, False
 
     def read_samples(self, first_sample=0, last_sample=10000, channels=None):
         """
@@ -322,9 +340,9 @@ class Reader:
             raise IOError("Reader not open; call `open` before `read`")
         if not self.meta:
             _logger.warning("Sync trace not labeled in metadata. Assuming last trace")
-        return split_sync(
-            self._raw[_slice, _get_sync_trace_indices_from_meta(self.meta)]
-        )
+        fsel, flip = self._forward_selector(_slice)
+        raw = self._raw[fsel, _get_sync_trace_indices_from_meta(self.meta)]
+        return split_sync(raw[::-1] if flip else raw)
 
     def read_sync_analog(self, _slice=slice(0, 10000)):
         """
